@@ -242,6 +242,47 @@ def run(rep, tier):
     if not mine:
         rep.ok('R11.5', 'acyclic', 'no cycle through T(USCXMLInvoker::run), USCXMLInvoker::_mutex or child/parent session locks (%d edges)' % len(c.lo.edges))
 
+    # ---- R11.10 / R11.11 (audit round)
+    rep.rule('R11.10', 'a restored child does not run before it is restored: the engines\' deserialize() do not start invocations (which starts the child\'s thread from its initial configuration) before InterpreterImpl::deserialize hands the child its saved state')
+    for eq10 in ('uscxml::LargeMicroStep::deserialize', 'uscxml::FastMicroStep::deserialize'):
+        f10 = fb.fn(eq10)
+        starts = [n for n in f10.walk() if n.get('callee', {}).get('q', '') == 'uscxml::MicroStepCallbacks::invoke']
+        rep.check(not starts, 'R11.10', eq10.split('::')[1] + '::deserialize', locstr(starts[0]) if starts else f10.where(), '%s %s' % (eq10.split('::')[1] + '::deserialize',
+                  'does not start invocations' if not starts else 'calls invoke(): the child\'s thread starts from scratch and runs until USCXMLInvoker::deserialize overwrites it - a child restored as finished posts done.invoke again, early child events arrive twice'))
+    rep.rule('R11.11', 'finalize runs for the events of the invoked child only: the invokeid that selects the finalize block is set where an event crosses from child to parent, not stamped by <send> on every event a session sends')
+    ps = fb.fn('uscxml::BasicContentExecutor::processSend')
+    stamps = [n for n in ps.walk() if n['k'] in ('CXXOperatorCallExpr', 'BinaryOperator') and n.get('op') == '=' and any(
+        x['k'] == 'MemberExpr' and x['ref'].get('name') == 'invokeid' for x in sub(n['c'][1] if n['k'] == 'CXXOperatorCallExpr' else n['c'][0]))]
+    if not any(x.get('callee', {}).get('q', '').endswith('getInvokeId') for x in ps.walk()):
+        stamps = []
+    guarded11 = [n for n in stamps if any(a_['k'] == 'IfStmt' and any(x['k'] == 'StringLiteral' and (x.get('str') or '').startswith('#_parent') for x in sub(a_['c'][0])) for a_ in ps.ancestors(n))]
+    rep.check(not stamps or len(guarded11) == len(stamps), 'R11.11', 'processSend|invokeid', locstr(stamps[0]) if stamps else ps.where(), 'processSend %s' % (
+        'does not stamp the sender\'s invokeid on every event' if not stamps or len(guarded11) == len(stamps) else 'stamps the sender\'s own invokeid on EVERY event it sends, whatever the target: a session invoked as "sub" that invokes a child "sub" runs that child\'s <finalize> for its own timer events'))
+
+    # ---- R11.9 the invoke bookkeeping of a session is shared with its timer thread
+    rep.rule('R11.9', 'the maps a delayed #_<invokeid> send consults (InterpreterImpl::_invokers, _finalize, _autoForwarders) are accessed under one common mutex by the interpreter thread (invoke / uninvoke) and the timer thread (enqueueAtInvoker)')
+    impl9 = 'uscxml::InterpreterImpl'
+    dq9 = 'uscxml::BasicDelayedEventQueue'
+    roots9 = {'api': [fb.fn(q) for q in ('uscxml::Interpreter::step', 'uscxml::Interpreter::receive')], 'timer': [fb.fn(dq9 + '::run'), fb.fn(dq9 + '::timerCallback')]}
+    reach9 = {k: set(c.cg.reach(v)) for k, v in roots9.items()}
+    n9 = 0
+    for name in ('_invokers', '_finalize', '_autoForwarders'):
+        acc = [(f, n) for f in fb.funcs.values() if f.file.startswith('src/') and f.q.split('::')[-1] not in ('InterpreterImpl', '~InterpreterImpl') for n in f.walk()
+               if n['k'] == 'MemberExpr' and n['ref'].get('name') == name and n['ref'].get('rec') == impl9]
+        who = {k for k, r in reach9.items() for f, n in acc if f.m in r}
+        if len(who) < 2:
+            continue
+        n9 += 1
+        common = None
+        for f, n in acc:
+            held = {m for b, m in la.held(f, n)}
+            common = held if common is None else common & held
+        bad = [(f, n) for f, n in acc if not la.held(f, n)]
+        rep.check(bool(common), 'R11.9', 'InterpreterImpl::' + name, locstr(bad[0][1]) if bad else impl9, 'field %s is reached from %s; %s' % (name, sorted(who),
+                  'every access holds %s' % sorted(x.split('::')[-1] for x in common) if common else
+                  'its accesses share NO mutex (unlocked in %s): a delayed send to #_<invokeid> arriving on the timer thread while the state is un-invoked reads the map entry that ~USCXMLInvoker is tearing down (use after free, SIGSEGV)' % ', '.join(sorted({f.q.split('uscxml::')[-1] for f, n in bad})[:4])))
+    rep.minimum('R11.9', n9, 1, 'invoke bookkeeping maps reached from the timer thread')
+
     # ---- R11.4 (second part): the reserved terms are compared exactly
     io4 = fb.fn('uscxml::SCXMLIOProcessor::eventFromSCXML')
     ci = [n for n in io4.walk() if n['k'] == 'CallExpr' and n.get('callee', {}).get('q', '').split('::')[-1] in ('iequals', 'istarts_with', 'strcasecmp') and any(
